@@ -30,9 +30,9 @@ Proof. reflexivity. Qed.
 Example ex_faithful : forall j, ex_clean j -> ex_parse (ex_render j) = PTree j.
 Proof. intros j [<-|[<-|[<-|[]]]]; vm_compute; reflexivity. Qed.
 
-Example ex_render_nonempty : forall j, is_empty (ex_render j) = false.
+Example ex_render_nonempty : forall j, ex_clean j -> is_empty (ex_render j) = false.
 Proof.
-  intro j. unfold ex_render. destruct (find (fun p => json_eqb (fst p) j) ex_texts) as [[j' t]|] eqn:E; [|reflexivity].
+  intros j _. unfold ex_render. destruct (find (fun p => json_eqb (fst p) j) ex_texts) as [[j' t]|] eqn:E; [|reflexivity].
   apply find_some in E as [[E|[E|[E|[]]]] _]; injection E as _ <-; reflexivity.
 Qed.
 
@@ -121,10 +121,53 @@ Definition ex_alias : list (bytes * json) :=
   [ (b "QUERY", JStr (b "{a}")); (b "operationname", JNull);
     (b "Variables", JObj [(b "z", JNum 4607182418800017408%N); (b "a", JNull)]);
     (b "extensions", JObj []); (b "zzz", JArr [JBool true]) ].
-Example ex_alias_hyps : has_range (JObj ex_alias) = false /\ single_string_members ex_alias = true.
-Proof. split; reflexivity. Qed.
+Example ex_alias_hyps :
+  fold_members StdJson ex_alias = fold_members Jsoniter ex_alias /\
+  has_range (JObj ex_alias) = false /\ single_string_members (fold_members StdJson ex_alias) = true.
+Proof. split; [|split]; vm_compute; reflexivity. Qed.
 Example ex_alias_agree :
   option_map body_op (decode_struct StdJson true (JObj ex_alias)) =
   Some {| o_query := b "{a}"; o_vars := Some [(b "a", JNull); (b "z", JNum 4607182418800017408%N)]; o_opname := [] |}
   /\ option_map body_op (decode_struct Jsoniter false (JObj ex_alias)) = option_map body_op (decode_struct StdJson true (JObj ex_alias)).
 Proof. split; vm_compute; reflexivity. Qed.
+
+(** ** stage B: the byte-level theorems.  A number layer that knows one number: 7 *)
+Definition seven : N := 4619567317775286272%N.
+Definition ex_numprint (b : N) : bytes := [55%N].
+Definition ex_numval (t : bytes) : option N := if bytes_eqb t [55%N] then Some seven else None.
+Definition ex_numclean (b : N) : Prop := b = seven.
+
+Example ex_num_hyps :
+  (forall b, ex_numclean b -> ex_numprint b <> []) /\
+  (forall b, ex_numclean b -> forallb JsonText.num_char (ex_numprint b) = true) /\
+  (forall b, ex_numclean b -> JsonText.num_ok (ex_numprint b) = true) /\
+  (forall b, ex_numclean b -> ex_numval (ex_numprint b) = Some b).
+Proof. repeat split; intros b0 Hb; try discriminate; try reflexivity. rewrite Hb. reflexivity. Qed.
+
+Example ex_text_clean : forall t j, In j (sent_json t ex_o) -> JsonTextProofs.text_clean ex_numclean j.
+Proof.
+  intros t j H. destruct t; cbn in H; repeat (destruct H as [<-|H]); try contradiction;
+    repeat (first [ apply JsonTextProofs.TCobj; repeat constructor
+                  | apply JsonTextProofs.TCstr; vm_compute; reflexivity
+                  | apply JsonTextProofs.TCnum; reflexivity ]).
+Qed.
+
+(** the bytes of the canonical POST body and what the reader makes of them *)
+Example ex_bytes_body :
+  JsonText.print ex_numprint (body_json true ex_o) = b "{""query"":""query Q($i:Int){echoInt(x:$i)}"",""variables"":{""i"":7},""operationName"":""Q""}"
+  /\ JsonText.parse_text StdJson ex_numval (JsonText.print ex_numprint (body_json true ex_o)) = PTree (body_json true ex_o).
+Proof. split; vm_compute; reflexivity. Qed.
+
+Example ex_roundtrip_bytes : forall t, carries t ex_o = true ->
+  decode fixed (JsonText.parse_text StdJson ex_numval) (JsonText.parse_text Jsoniter ex_numval)
+         (encode (JsonText.print ex_numprint) t (b "1") ex_o) = Some (ex_o, None).
+Proof.
+  intros t Ct. destruct ex_num_hyps as (H1 & H2 & H3 & H4).
+  exact (C17_envelope_roundtrip_bytes ex_numval ex_numprint ex_numclean H1 H2 H3 H4 t (b "1") ex_o ex_wf Ct (ex_text_clean t)).
+Qed.
+
+(** a reading that is not the identity: escapes, white space, a non-ASCII string *)
+Example ex_reader :
+  JsonText.parse_text StdJson ex_numval (b " { ""aA\n"" : [ 7 , true , null , ""😀"" ] } ")
+  = PTree (JObj [([97; 65; 10]%N, JArr [JNum seven; JBool true; JNull; JStr [240; 159; 152; 128]%N])]).
+Proof. vm_compute. reflexivity. Qed.
